@@ -1165,7 +1165,7 @@ std::ostream& expression_t::print(std::ostream& os, bool old) const
         print_bound_type(os, get(1));
         get(2).print(os, old);
         print_runs(os, get(0));
-        if (flag || get(4).is_true()) {
+        if (flag || (get(4).is_true() && get(4).get_type().is(Constants::BOOL))) {  // "<> p" is stored as "p U true"
             os << (flag ? "]([] " : "](<> ");
             get(3).print(os, old) << ")";
         } else {  // Pr[...](p U q)
